@@ -15,6 +15,14 @@ from ..runner import Check, Violation, guard, outcome, HarnessError
 MARK = b"\x0e" * 16
 
 
+def _two_blocks(kind, n):
+    if n <= 0:
+        return []
+    if n == 1:
+        return [(1, True)]
+    return [((n + 1) // 2, True), (n // 2, False)]
+
+
 class C08(Check):
     pid = "C08"
     level = "exploration"
@@ -37,7 +45,8 @@ class C08(Check):
         "reader unions never hold two named types matching the same writer type (short names unique per schema)",
     ]
     required_labels = ["steps:0-copy", "steps>=1", "expect:value", "expect:error", "via:container", "via:schemaless",
-                       "step:promote", "step:wrap-union", "step:drop-field", "step:reorder", "step:rename-type-alias", "step:enum-remove-default", "moved-definition"]
+                       "step:promote", "step:wrap-union", "step:drop-field", "step:reorder", "step:rename-type-alias", "step:enum-remove-default", "moved-definition", "foreign-layout", "reader-only-field:new-named-type-default",
+                       "step:add-field-default", "step:add-field-nodefault", "step:change-type", "step:enum-remove-nodefault", "step:fixed-size", "step:rename-type-noalias", "step:union-drop-branch", "step:rename-field-alias", "step:change-namespace", "step:enum-add", "step:permute-union", "step:unwrap-union", "step:union-insert-branch"]
     quick = (5000, 1)
     thorough = (8000, 16)
 
@@ -105,6 +114,8 @@ class C08(Check):
         labels.add("steps>=1" if steps else "steps:0-copy")
         for s in steps:
             labels.add("step:" + s)
+        if "Added" in repr(rjs):
+            labels.add("reader-only-field:new-named-type-default")
         if M.named_defs(wnode) != M.named_defs(rnode) and set(M.named_defs(wnode)) == set(M.named_defs(rnode)):
             labels.add("moved-definition")
         elif self._def_positions(wnode) != self._def_positions(rnode):
@@ -150,6 +161,20 @@ class C08(Check):
                 plain = guard("read-own-output", fastavro.schemaless_reader, io.BytesIO(blob), W)
                 if not B.same(plain, o[1]):
                     raise Violation("equal-reader-schema-differs", f"with R == W read {o[1]!r:.150}, without reader schema {plain!r:.150}; {ctx}")
+            # the same value in a layout fastavro's writer never emits (every array/map in two blocks, the first one in the
+            # negative-count + byte-size form): resolution, skipping included, must give the same result
+            try:
+                trace, _, _ = bincase.trace_of(wnode, wtable, blob)
+                blob2, _ = B.encode(wnode, wtable, datum, B.Picker(indices=trace), layout=_two_blocks)
+            except (B.RefError, B.NotConforming):
+                blob2 = blob
+            if blob2 != blob:
+                labels.add("foreign-layout")
+                o2 = outcome(fastavro.schemaless_reader, io.BytesIO(blob2), W, Rs)
+                if o2[0] != "ok":
+                    raise Violation("resolution-raises:foreign-layout:" + type(o2[1]).__name__, f"rules give {expect!r:.150} but reading the multi-block encoding raised {type(o2[1]).__name__}: {str(o2[1])[:200]}; {ctx}")
+                if not B.same(o2[1], expect):
+                    raise Violation("resolution-mismatch:foreign-layout", f"multi-block encoding read as {o2[1]!r:.200}, rules give {expect!r:.200}; {ctx}")
         else:
             if o[0] == "ok":
                 raise Violation("resolution-no-error", f"rules give no result ({expect}) but reading returned {o[1]!r:.150}; {ctx}")
